@@ -5,6 +5,9 @@ package ctlsim
 
 import (
 	"context"
+
+	"github.com/go-logr/logr"
+	"github.com/go-logr/logr/funcr"
 	"fmt"
 	"os"
 	"path/filepath"
@@ -139,6 +142,7 @@ type StepInfo struct {
 	Acme     []string
 	WasFull  bool // a full sync was performed (log based)
 	Reloaded bool
+	Requeue  bool // the reconciler asked for a retry (RequeueAfter)
 }
 
 // Sim is one controller process plus its HAProxy.
@@ -150,6 +154,7 @@ type Sim struct {
 	World    *world.World
 	Cache    services.VerifCache
 	Watchers *reconciler.VerifWatchers
+	Rec      *reconciler.VerifReconciler // the real IngressReconciler + Services (nil with Acme: needs a leader)
 	Instance haproxy.Instance
 	Tracker  convtypes.Tracker
 	Hap      *simhap.Sim
@@ -162,6 +167,9 @@ type Sim struct {
 	Steps    int
 	closed   bool
 }
+
+// Trace prints every reconciliation (development aid).
+var Trace = os.Getenv("VERIF_TRACE") != ""
 
 // RepoRoot is where the templates are read from.
 var RepoRoot = func() string {
@@ -230,7 +238,10 @@ func New(p Params) (*Sim, error) {
 	}
 	s.Cfg = cfg
 	s.Client = NewMemClient()
-	ctx := context.Background()
+	// controller-runtime style loggers (services, cache, watchers) are recorded too
+	ctx := logr.NewContext(context.Background(), funcr.New(func(prefix, args string) {
+		s.Log.add("LOGR", "%s %s", prefix, args)
+	}, funcr.Options{}))
 	s.Tracker = tracker.NewTracker()
 	s.DynCfg = &convtypes.DynamicConfig{StaticCrossNamespaceSecrets: cfg.AllowCrossNamespace}
 	cache, fakeCrt, fakeCA, err := services.VerifNewCache(ctx, s.Client, cfg, s.Tracker, s.DynCfg)
@@ -238,7 +249,6 @@ func New(p Params) (*Sim, error) {
 		return nil, err
 	}
 	s.Cache = cache
-	s.Watchers = reconciler.VerifNewWatchers(ctx, cfg, cache)
 	metrics := types_helper.NewMetricsMock()
 	iopt := haproxy.InstanceOptions{
 		RootFSPrefix:    RepoRoot + "/rootfs",
@@ -282,6 +292,15 @@ func New(p Params) (*Sim, error) {
 	s.Instance = haproxy.CreateInstance(s.Log, iopt)
 	if err := s.Instance.ParseTemplates(); err != nil {
 		return nil, err
+	}
+	if p.Acme {
+		// acme needs this controller to be the leader, which the hooked Services never is:
+		// Reconcile and ReconcileIngress are mirrored by ReconcileOne in this mode
+		s.Watchers = reconciler.VerifNewWatchers(ctx, cfg, cache)
+	} else {
+		svc := services.VerifNewServices(ctx, s.Client, cfg, cache, s.ConvOpt, s.Instance)
+		s.Rec = reconciler.VerifNewReconciler(ctx, cfg, svc)
+		s.Watchers = s.Rec.VerifWatchers
 	}
 	return s, nil
 }
@@ -416,6 +435,23 @@ func (s *Sim) Reconcile() []StepInfo {
 func (s *Sim) ReconcileOne(fullsync bool) StepInfo {
 	s.Steps++
 	r0, _, c0, _ := s.Hap.Counters()
+	if s.Rec != nil {
+		// the real IngressReconciler.Reconcile -> Services.ReconcileIngress
+		requeue, err := s.Rec.Reconcile(fullsync)
+		r1, _, c1, _ := s.Hap.Counters()
+		info := StepInfo{FullReq: fullsync, Err: err, Reloads: r1 - r0, Cmds: c1 - c0, Logs: s.Log.Take(), Requeue: requeue > 0}
+		if err == nil && requeue > 0 {
+			info.Err = fmt.Errorf("the update failed and the reconciler asked to be requeued after %s", requeue)
+		}
+		info.Reloaded = info.Reloads > 0
+		if Trace {
+			fmt.Printf("--- step full=%v err=%v reloads=%d cmds=%d\n", fullsync, info.Err, info.Reloads, info.Cmds)
+			for _, l := range info.Logs {
+				fmt.Println("      ", l)
+			}
+		}
+		return info
+	}
 	changed := s.Watchers.GetChangedObjects()
 	changed.NeedFullSync = fullsync
 	timer := utils.NewTimer(nil)
